@@ -1,0 +1,96 @@
+//go:build verif
+
+package agwpe
+
+import (
+	"encoding/binary"
+	"io"
+	"net"
+)
+
+// Hooks for the verification harness (build tag verif). Add-only: nothing here changes behaviour.
+
+// VerifFrame mirrors the unexported frame type with exported fields.
+type VerifFrame struct {
+	Port, Kind, PID uint8
+	From, To        [10]byte
+	DataLen         uint32
+	Data            []byte
+}
+
+func toVerif(f frame) VerifFrame {
+	return VerifFrame{Port: f.Port, Kind: uint8(f.DataKind), PID: f.PID, From: f.From, To: f.To, DataLen: f.DataLen, Data: f.Data}
+}
+
+func fromVerif(v VerifFrame) frame {
+	return frame{header: header{Port: v.Port, DataKind: kind(v.Kind), PID: v.PID, From: v.From, To: v.To, DataLen: v.DataLen}, Data: v.Data}
+}
+
+// VerifHeaderSize is binary.Size of the header struct.
+func VerifHeaderSize() int { return binary.Size(header{}) }
+
+// VerifReadFrame is one call of frame.ReadFrom on a fresh frame.
+func VerifReadFrame(r io.Reader) (VerifFrame, int64, error) {
+	var f frame
+	n, err := f.ReadFrom(r)
+	return toVerif(f), n, err
+}
+
+// VerifWriteFrame is frame.WriteTo.
+func VerifWriteFrame(w io.Writer, v VerifFrame) (int64, error) { return fromVerif(v).WriteTo(w) }
+
+// VerifCtor calls the named frame constructor.
+func VerifCtor(name string, port uint8, from, to string, data []byte, digis []string) (VerifFrame, bool) {
+	switch name {
+	case "version":
+		return toVerif(versionNumberFrame()), true
+	case "capabilities":
+		return toVerif(portCapabilitiesFrame(port)), true
+	case "data":
+		return toVerif(connectedDataFrame(port, from, to, data)), true
+	case "outstandingConn":
+		return toVerif(outstandingFramesForConnFrame(port, from, to)), true
+	case "outstandingPort":
+		return toVerif(outstandingFramesForPortFrame(port)), true
+	case "register":
+		return toVerif(registerCallsignFrame(from, port)), true
+	case "unregister":
+		return toVerif(unregisterCallsignFrame(from, port)), true
+	case "connect":
+		return toVerif(connectFrame(from, to, port, digis)), true
+	case "connectVia":
+		return toVerif(connectViaFrame(from, to, port, digis)), true
+	case "unproto":
+		return toVerif(unprotoInformationFrame(from, to, port, data)), true
+	case "disconnect":
+		return toVerif(disconnectFrame(from, to, port)), true
+	}
+	return VerifFrame{}, false
+}
+
+// VerifWant evaluates framesFilter.Want. port < 0 means "no port filter".
+func VerifWant(kinds []byte, port int, call, to [10]byte, v VerifFrame) bool {
+	f := framesFilter{call: call, to: to}
+	for _, k := range kinds {
+		f.kinds = append(f.kinds, kind(k))
+	}
+	if port >= 0 {
+		p := uint8(port)
+		f.port = &p
+	}
+	return f.Want(fromVerif(v))
+}
+
+// VerifNewTNC runs a TNC over an arbitrary net.Conn (OpenTCP minus the dial).
+func VerifNewTNC(conn net.Conn) *TNC { return newTNC(conn) }
+
+// VerifConnWithFrames returns a Conn whose data-frame queue holds exactly the given payloads and is
+// then closed (as after a disconnect). Only Read may be called on it.
+func VerifConnWithFrames(payloads [][]byte) *Conn {
+	ch := make(chan frame, len(payloads))
+	for _, p := range payloads {
+		ch <- connectedDataFrame(0, "", "", p)
+	}
+	close(ch)
+	return &Conn{dataFrames: ch}
+}
